@@ -22,6 +22,8 @@ TABLE = {
             "The extract flow summary covers every binding, conditional, loop and generator construct of the running interpreter's grammar; suite walker covers every compound statement. Behaviour preservation is not decided."),
     "C04": ("ecg", "ownership/alias analysis of the definition generator's state; dominating closed-table test on every non-None return of the assignment classifier",
             "Per-call-site independence of the inline definition generator (no __init__ state mutated from get_definition); the write/read classifier validates the operator against a closed table. Text of the inlined code is not decided."),
+    "C05": ("ecg-cfg", "change-set typestate (no contents change after the move of a resource), placeholder must-replace path rule, per-module-loop coverage, import-list provenance, must-pass-through the relative-import absolutiser, splice integrity",
+            "Seven structural necessary conditions of the move machinery: announcement order of contents changes / folder creation / move; placeholders are replaced wherever something was renamed; every module of the loop is rewritten or skipped on an occurrence test; moved code carries the origin's imports and the back-import; everything that changes package is absolutised first; the move is announced on every path; spliced text keeps the destination whole. The text of the rewritten imports and references (which importer style is rewritten how) is not decided."),
     "C06": ("vgc", "def-use 'derives-from' analysis on every destructuring of ast.arguments / ast.Call against the grammar's alignment rule",
             "Every reader of ast.arguments uses all parameter-bearing fields and pairs defaults with the right parameter lists; no assert on the analysed program's call shape. Call rewriting arithmetic is not decided."),
     "C07": ("vgc+ecg", "scope-attribution check of the unbound-name visitors, CFG domination for __future__ filtering, def-use must-flow for __all__, dispatch exhaustiveness",
@@ -54,9 +56,7 @@ TABLE = {
             "Every completion proposal is constructed under a startswith test on the typed prefix; enclosing scopes contribute propagated names only. Absence of internal errors at every position is not decided."),
 }
 
-NOT_APPLICABLE = {
-    "C05": "every clause concerns the text of import statements and qualified references computed by move.py through occurrence search and placeholder substitution over arbitrary layouts: runtime string values with no structural necessary condition not already claimed under C09 (effects, targets) and C15 (name tables); a static proxy would be brittle, so it is declined (DESIGN.md section 4, C05)",
-}
+NOT_APPLICABLE = {}
 
 
 def build() -> dict:
@@ -95,7 +95,7 @@ def build() -> dict:
              "kind_free_text": "loader, symbol index with MRO, hand-built statement CFG with exceptional edges, dominators and guard queries, known-findings and evidence"},
             {"name": "vgc", "path": "sa/grammar.py, sa/vgc.py", "serves_properties": ["C01", "C03", "C06", "C07", "C08", "C15", "C17"],
              "kind_free_text": "visitor x grammar coverage: rope's hand-written AST visitors compared with the running interpreter's ASDL grammar"},
-            {"name": "ecg", "path": "sa/callgraph.py", "serves_properties": ["C04", "C09", "C10", "C11", "C12", "C13", "C16", "C18", "C19", "C20"],
+            {"name": "ecg", "path": "sa/callgraph.py", "serves_properties": ["C04", "C05", "C09", "C10", "C11", "C12", "C13", "C16", "C18", "C19", "C20"],
              "kind_free_text": "call graph with typed/CHA/by-name resolution, effect sinks, provenance, CFG path rules"},
             {"name": "rca", "path": "sa/rca.py, sa/fold.py", "serves_properties": ["C02", "C08", "C14"],
              "kind_free_text": "constant folding of regex-building code, regex AST to NFA/DFA, language inclusion with counter-example"},
